@@ -9,12 +9,11 @@ cd "$WT" || exit 2
 DEMO=_mutant/demo.py
 [ -f "$DEMO" ] || DEMO=_mutant/demo.sh
 run_demo() { if [ "${DEMO##*.}" = py ]; then PYTHONPATH="$WT" timeout 900 /venv/bin/python "$DEMO" >/tmp/demo_$NAME.$1.log 2>&1; else timeout 900 sh "$DEMO" >/tmp/demo_$NAME.$1.log 2>&1; fi; echo $?; }
-git diff -- . ':!_mutant' > "$OUT/patch.diff"
-[ -s "$OUT/patch.diff" ] || cp _mutant/patch.diff "$OUT/patch.diff"
+cp _mutant/patch.diff "$OUT/patch.diff"
 WITH=$(run_demo with)
-git stash -q
+git apply -R "$OUT/patch.diff"
 WITHOUT=$(run_demo without)
-git stash pop -q
+git apply "$OUT/patch.diff"
 echo "demo with patch: exit $WITH ; without: exit $WITHOUT"
 TESTS="not run"
 if [ "${RUN_TESTS:-1}" = 1 ]; then
